@@ -190,7 +190,10 @@ class Exporter:
         if getattr(sym, "is_import", False):
             low = sym.name.lower()
             if low not in self.import_types:
-                raise Unsupported("imported symbol " + sym.name)
+                # no type given by the case: exported under its plain name as before
+                # (kind parameters in intrinsic arguments); a case that evaluates it
+                # is rejected by TLC as a reference to an undeclared variable
+                return low
             q = sym.interface.container_symbol.name.lower() + "::" + low
             self.imports_seen[q] = self.import_types[low]
             return q
